@@ -30,6 +30,15 @@ def root_of(t):
             return None
 
 
+def deep(nv, t, depth=0, limit=6):
+    """The term with named single-definition locals replaced by their definitions (bounded depth)."""
+    if not isinstance(t, tuple) or not t or depth > limit:
+        return t
+    if t[0] == "local" and len(nv.defs().get(t[1], [])) == 1 and not nv.partial_writes().get(t[1]):
+        return deep(nv, nv.definition(t[1]), depth + 1, limit)
+    return tuple(deep(nv, x, depth + 1, limit) if isinstance(x, tuple) else x for x in t)
+
+
 def rpo_index(body):
     return {b: i for i, b in enumerate(rpo(body))}
 
